@@ -3,6 +3,7 @@ package checks
 import (
 	"fmt"
 	"sync"
+	"time"
 
 	"github.com/cuteLittleDevil/go-jt808/service"
 
@@ -60,6 +61,7 @@ func c18Worker(c *core.Collector, x *Ctx) {
 	run("c06", func() { c06Suite(sub, c.Seed+uint64(x.Batch)*7, 50+x.Batch, c.N(12, 24), c.N(150, 600), 0) })
 	run("c09", func() { c09Suite(sub, c.Seed+uint64(x.Batch)*7, 60+x.Batch, c.N(6, 12), c.N(150, 600)) })
 	run("c05", func() { c05Suite(sub, c.Seed+uint64(x.Batch)*7, 70+x.Batch, c.N(6, 12), c.N(30, 120)) })
+	run("latejoin", func() { c18LateJoin(c, c.Seed+uint64(x.Batch)*7, 80+x.Batch, c.N(40, 160)) })
 	wg.Wait()
 	// command / registry / disconnect scenarios share one server
 	srv, err := svc.Start(func() service.TerminalEventer { return svc.NewRecorder() })
@@ -140,4 +142,59 @@ func c18Worker(c *core.Collector, x *Ctx) {
 	c.Floor("replies_checked", 500)
 	c.Floor("commands_sent", 50)
 	c.Floor("disconnect_scenarios", 30)
+}
+
+// c18LateJoin: a server whose key function refuses the first messages of a connection (a terminal is only admitted once it has
+// authenticated, say): replies are written before the connection has joined and the join is attempted again with every message.
+// Clients pipeline a handful of messages and reset at a random moment, so that write failures, the late join and the teardown
+// overlap. Race-instrumented like everything else in this part; nothing is judged here but the race log.
+func c18LateJoin(c *core.Collector, seed uint64, base int, conns int) {
+	srv, err := svc.Start(func() service.TerminalEventer { return svc.NewRecorder() }, service.WithKeyFunc(func(m *service.Message) (string, bool) {
+		h := m.JTMessage.Header
+		return h.TerminalPhoneNo, h.SerialNumber >= 4 // the first messages (serials 0..3) do not admit the terminal
+	}))
+	if err != nil {
+		c.Inconclusive()
+		return
+	}
+	var wg sync.WaitGroup
+	sem := make(chan struct{}, 8)
+	for i := 0; i < conns; i++ {
+		wg.Add(1)
+		sem <- struct{}{}
+		go func(i int) {
+			defer wg.Done()
+			defer func() { <-sem }()
+			r := core.NewRand(seed, "c18late", uint64(base*1000+i))
+			t, err := svc.Dial(srv.Addr, r.Bool(), fmt.Sprintf("%d", 8800000+base*1000+i))
+			if err != nil {
+				return
+			}
+			n := 5 + r.Intn(6)
+			for k := 0; k < n; k++ {
+				t.Write(t.Frame(core.Pick(r, []uint16{0x0002, 0x0200}), uint16(k), c04Body(r, 2, 28)))
+				if r.Chance(1, 3) {
+					time.Sleep(time.Duration(r.Intn(300)) * time.Microsecond)
+				}
+			}
+			switch r.Intn(3) {
+			case 0:
+				t.Reset()
+			case 1:
+				time.Sleep(time.Duration(r.Intn(2000)) * time.Microsecond)
+				t.Reset()
+			default:
+				for k := 0; k < n; k++ {
+					if _, ok, to := t.Next(2 * time.Second); to || !ok {
+						break
+					}
+				}
+				t.Close()
+			}
+			c.Evals(1)
+			c.Count("late_join_connections", 1)
+			c.NonTrivial(core.HashString(fmt.Sprintf("latejoin/%d/%d", base, i)))
+		}(i)
+	}
+	wg.Wait()
 }
